@@ -76,12 +76,14 @@ var vTokens = []string{"0", "1", "-1", "+5", "007", "0x10", "1e3", "1.5", "-0", 
 	"18446744073709551616", "1e400", "-1e400", "1e-400", "1e308", "1.7976931348623157e308", "1.8e308", "4.9e-324", "0x1p-1074", "0X1P+2", "0x1p-2", "inf", "-Inf", "+inf", "Infinity", "infinity", "INF", "NaN", "nan", "nAn", "NaN(1)",
 	"true", "false", "T", "F", "t", "f", "TRUE", "True", "FALSE", "False", "tRUE", "true ", "yes", "no", "on", "off", "y", "", " ", "  ", " 1", "1 ", "\t1", "1\n", "a", "é", "1,2", "0b1", "0o7", "0o17", "017", "0x", "0b",
 	"١", "１", "０", "1e", "e1", ".", "-", "+", "--1", "1__0", "_1", "1_", "0_1", "0.1e-1", "1E5", "3.0", "-0.0", "+0", "\x00", "\xff\xfe", "a,b", ",", "1,", ",1", "=", "-x", "--", strings.Repeat("9", 300), strings.Repeat("1", 40) + ".5",
-	"000000000000000000042", "+00000000000000000000007", "-000000000000000000000", "0000000000000000000000.50", "08", "09", "010", "0100", "$HOME", "$1", "a$b", "${x}", "100%", "%d", "caf\xe9.txt"}
+	"000000000000000000042", "+00000000000000000000007", "-000000000000000000000", "0000000000000000000000.50", "08", "09", "010", "0100", "$HOME", "$1", "a$b", "${x}", "100%", "%d", "caf\xe9.txt",
+	// tokens that are complete Go literals: bound byte for byte, never unquoted
+	"\"quoted\"", "\"a\\tb\"", "`raw`", "'x'", "\"\"", "\"1\"", "2147483648", "-2147483649", "4294967296", "1700000000000", "3.4e39", "1e39", "16777217"}
 
 // mostly valid tokens (C06)
 var vPlain = map[vkind][]string{
-	kBool: {"true", "false", "1", "0", "T", "f"}, kString: {"a", "bc", "x y", "7", "é"}, kInt: {"0", "1", "-7", "42", "+5", "007"}, kFloat: {"0", "1.5", "-2", "1e3", ".5", "inf"},
-	kStrings: {"a", "bc", "x y", "7", ""}, kInts: {"0", "1", "-7", "42"}, kFloats: {"0", "1.5", "-2", "1e3"},
+	kBool: {"true", "false", "1", "0", "T", "f"}, kString: {"a", "bc", "x y", "7", "é", "\"q\"", "k=v,ro"}, kInt: {"0", "1", "-7", "42", "+5", "007"}, kFloat: {"0", "1.5", "-2", "1e3", ".5", "inf"},
+	kStrings: {"a", "bc", "x y", "7", "", "\"q\"", "`r`"}, kInts: {"0", "1", "-7", "42", "3000000000", "-4294967296"}, kFloats: {"0", "1.5", "-2", "1e3", "1e39"},
 }
 
 type vcase struct {
@@ -89,17 +91,18 @@ type vcase struct {
 	Role    string   `json:"role"` // option | argument
 	Decl    string   `json:"declared_with"`
 	Default []string `json:"default"`
-	EnvVars []string `json:"env_vars"` // name=value | name (unset)
-	Hide    bool     `json:"hide_value,omitempty"` // HideValue: only the help may differ
+	EnvVars []string `json:"env_vars"`                         // name=value | name (unset)
+	Hide    bool     `json:"hide_value,omitempty"`             // HideValue: only the help may differ
+	Tail    bool     `json:"options_group_and_tail,omitempty"` // option declared under [OPTIONS] [TAIL...] with one more positional on the line
 	Cli     []string `json:"command_line_values"`
 	Argv    []string `json:"argv"`
 
-	kind    vkind
-	asArg   bool
-	def     []interface{}
-	envName []string
-	envVal  []string // "\x00" = unset
-	declIdx int
+	kind     vkind
+	asArg    bool
+	def      []interface{}
+	envName  []string
+	envVal   []string // "\x00" = unset
+	declIdx  int
 	formSalt int
 	// the caller's default slices (multi-valued types), shared by every application built for this case
 	dS []string
@@ -151,6 +154,9 @@ func (v *vcase) finish() {
 			default:
 				v.Argv = append(v.Argv, "--xx="+t)
 			}
+		}
+		if v.Tail {
+			v.Argv = append(v.Argv, "tail-1")
 		}
 	}
 }
@@ -414,9 +420,13 @@ func (v *vcase) run() (o vobs) {
 		}
 		get = func() []interface{} { return list(len(*p), func(i int) interface{} { return (*p)[i] }) }
 	}
-	if v.asArg {
+	switch {
+	case v.asArg:
 		app.Spec = "[-- X...]"
-	} else {
+	case v.Tail:
+		app.StringsArg("TAIL", nil, "")
+		app.Spec = "[OPTIONS] [TAIL...]"
+	default:
 		app.Spec = "[--xx...]"
 	}
 	app.Action = func() { o.ran = true; o.got = get(); o.sbu = *sbu }
@@ -448,6 +458,7 @@ func genValueCase(r *rand.Rand, wide bool) *vcase {
 		v.def = append(v.def, x)
 	}
 	v.Hide = r.Intn(5) == 0
+	v.Tail = !v.asArg && r.Intn(4) == 0
 	nenv := r.Intn(4)
 	envStyle := []string{"VPT_%d", "VPT_%d", "vpt_%d", "Vpt_miXed_%d"}[r.Intn(4)] // names are case-sensitive and used as written
 	for e := 0; e < nenv; e++ {
